@@ -4,7 +4,7 @@
 # 180/180 with the patch), evaluates the named checks (default: the property's own, quick tier) against the patched
 # worktree from a scratch copy of /verif, and files the change as /verif/seeded/<ID>-<variant>/.  Never touches /repo.
 set -u
-wt=$1; id=$2; v=$3; shift 3; checks=${*:-$id}
+wt=$1; id=$2; v=$3; shift 3; checks=${*:-$id}; mkdir -p /tmp/w4
 [ -s "$wt/patch.diff" ] || { echo "$id/$v no patch.diff"; exit 2; }
 cd "$wt"
 git apply -R patch.diff 2>/dev/null || git checkout -q -- photon_weave
